@@ -3,7 +3,9 @@
    {"t", "align", "plan":[{off,size,first,last,cpu,cin,cout,name}..], "scratch":[{off,size}..] (custom-op scratch
     tensors), "touched": highest region-1 end address any command stream touches, "io_end": highest end of a custom
     operator input/output, "reported": arena bytes reported in the summary CSV (-1 = not available),
-    "console": bytes reported on the console for that memory (-1 = n/a; rounded to 0.01 KiB) }                *)
+    "console": bytes reported on the console for that memory (-1 = n/a; rounded to 0.01 KiB),
+    "spilling": the arena is not in SRAM, "fast_size": size of the fast-scratch tensor of the custom operator, "touched_fast":
+    highest region-2 end address the streams touch, "reported_fast"/"console_fast": SRAM bytes reported (csv / console) }  *)
 EXTENDS Arena, Json, IOUtils, TLC
 Trace == ndJsonDeserialize(IOEnv.TRACE_FILE)
 VARIABLES l, viol
@@ -20,6 +22,11 @@ Check(e) ==
                i \in {i \in 1..Len(e.scratch) : e.scratch[i].size < Max(e.touched, e.io_end)} }
      \cup (IF e.reported >= 0 /\ e.reported < need THEN {<<e.t, "ReportedSufficient", "csv", e.reported>>} ELSE {})
      \cup (IF e.console >= 0 /\ e.console + 6 < need THEN {<<e.t, "ReportedSufficient", "console", e.console>>} ELSE {})
+     \* the arena is not in SRAM (spilling): the fast-scratch tensor is the SRAM buffer the model requires
+     \cup (IF e.spilling /\ e.reported_fast >= 0 /\ e.reported_fast < Max(e.fast_size, e.touched_fast)
+           THEN {<<e.t, "ReportedSufficient", "csv-sram", e.reported_fast>>} ELSE {})
+     \cup (IF e.spilling /\ e.console_fast >= 0 /\ e.console_fast + 6 < Max(e.fast_size, e.touched_fast)
+           THEN {<<e.t, "ReportedSufficient", "console-sram", e.console_fast>>} ELSE {})
 Init == l = 1 /\ viol = {}
 Next == l <= Len(Trace) /\ viol' = viol \cup Check(Ev) /\ l' = l + 1
 Spec == Init /\ [][Next]_<<l, viol>>
